@@ -106,6 +106,21 @@ def values (ix : Idx) : List Nat := (items ix).map (·.2)
 
 def clear (_ : Idx) : Idx := []
 
+/-- `update(mapping)` / `fsIndex(data)`: `for k, v in mapping.items(): self[k] = v`.  The source's
+    items are copied one by one — the two indexes share nothing afterwards (the model has value
+    semantics; the harness probes the real code for aliasing). -/
+def update (ix : Idx) : List (Nat × Nat) → Except Err Idx
+  | [] => .ok ix
+  | (k, v) :: t =>
+    match set ix k v with
+    | .ok ix' => update ix' t
+    | .error e => .error e
+
+/-- what a dictionary holds for `k` after `update(kvs)`: the last pair for `k`, else the old entry -/
+def updSpec (old : Option Nat) (k : Nat) : List (Nat × Nat) → Option Nat
+  | [] => old
+  | (k', v) :: t => updSpec (if k = k' then some v else old) k t
+
 /-- `minKey(key=None)` exactly as coded (after the repair of the absent-prefix defect). -/
 def minKey (ix : Idx) : Option Nat → Except Err Nat
   | none =>
